@@ -290,3 +290,27 @@ MUTANTS += [
     dict(id="c03_replace_end_reattaches_at_end", props=["C03"], edits=[
         (TE, "        if new is not None:\n            new.add_to_link(self)\n", "        if new is not None:\n            if new is old:\n                new.remove_from_link(self)\n                self._vertices.insert(idx, new)\n            new.add_to_link(self)\n")]),
 ]
+
+MUTANTS += [
+    # ---------------- C05 -------------------------------------------------
+    dict(id="c05_revert_fix_d6_replace_end", props=["C05"], edits=[
+        (TE, "            new.add_to_link(self)\n        self._invalidate_ends()\n", "            new.add_to_link(self)\n")]),
+    dict(id="c05_revert_fix_d7_unlink_from", props=["C05"], edits=[
+        (LK, "                kill.remove_from_link(self)\n\n            self._invalidate_ends()\n", "                kill.remove_from_link(self)\n")]),
+    dict(id="c05_revert_fix_d8", props=["C05"], edits=[
+        (VX, "        self.__qa_nb_cache = {}\n        if not self.NEIGHBOR_CACHING:\n            return\n", "        if not self.NEIGHBOR_CACHING:\n            return\n        self.__qa_nb_cache = {}\n")]),
+    dict(id="c05_revert_fix_d9", props=["C05"], edits=[
+        (VX, "        stats = self._CACHE_STATS.setdefault(self.uid, [0, 0, 0, 0])\n", "        stats = self._CACHE_STATS[self.uid]\n")]),
+    dict(id="c05_remove_from_link_no_invalidate", props=["C05"], edits=[
+        (VX, "            link.unlink_from(self)\n\n        self._qa_neighbors_invalidate()\n", "            link.unlink_from(self)\n"),
+        (LK, "                kill.remove_from_link(self)\n\n            self._invalidate_ends()\n", "                kill.remove_from_link(self)\n")]),
+    dict(id="c05_cache_key_ignores_filter", props=["C05"], edits=[
+        (H, "    cached = vert._qa_neighbors_get(\n        direction_sensitive, unknown_handling, filterfunc\n    )", "    cached = vert._qa_neighbors_get(\n        direction_sensitive, unknown_handling, filterfunc is None\n    )"),
+        (H, "    vert._qa_neighbors_insert(\n        nbs, direction_sensitive, unknown_handling, filterfunc\n    )", "    vert._qa_neighbors_insert(\n        nbs, direction_sensitive, unknown_handling, filterfunc is None\n    )")]),
+    dict(id="c05_cache_key_ignores_unknown_mode", props=["C05"], edits=[
+        (H, "    cached = vert._qa_neighbors_get(\n        direction_sensitive, unknown_handling, filterfunc\n    )", "    cached = vert._qa_neighbors_get(\n        direction_sensitive, 0, filterfunc\n    )"),
+        (H, "    vert._qa_neighbors_insert(\n        nbs, direction_sensitive, unknown_handling, filterfunc\n    )", "    vert._qa_neighbors_insert(\n        nbs, direction_sensitive, 0, filterfunc\n    )")]),
+    dict(id="c05_invalidate_ends_skips_first", props=["C05"], edits=[
+        (LK, "        for vert in self._vertices:\n            if vert is not None:\n                # pylint: disable-next=protected-access\n                vert._qa_neighbors_invalidate()",
+             "        for vert in self._vertices[1:]:\n            if vert is not None:\n                # pylint: disable-next=protected-access\n                vert._qa_neighbors_invalidate()")]),
+]
